@@ -40,6 +40,14 @@ Theorem C14_filter_payload : forall c pid items want,
 Proof. exact filter_payload. Qed.
 Print Assumptions C14_filter_payload.
 
+(* shape of the output: at most as many packets as the input, each 188 bytes, each beginning with the complete header
+   (sync byte, flags, the same PID, continuity counter, adaptation field) of the input packet at the same position *)
+Theorem C14_filter_headers : forall hdrs data, Forall (fun h => len h <= 188) hdrs ->
+  (length (spec_repack hdrs data) <= length hdrs)%nat /\
+  Forall2 (fun h p => len p = 188 /\ takeN (len h) p = h) (firstn (length (spec_repack hdrs data)) hdrs) (spec_repack hdrs data).
+Proof. exact spec_repack_shape. Qed.
+Print Assumptions C14_filter_headers.
+
 (* the filtered section is again a section the decoder of C06 accepts when the input was well-formed:
    decoding the output payload gives the kept streams (ties C14 to C06 L2) *)
 Theorem C14_filtered_decodes : forall c want, wf_carrier c -> pre c = [] ->
